@@ -47,7 +47,8 @@ def rationalise(f):
         if r is ex and f > 0:
             # nearest double to the square root of a small rational (std::sqrt(3) folded by the compiler): keep it as that square root
             sq = (ex * ex).limit_denominator(100)
-            if sq > 0 and math.sqrt(sq) == f:
+            # ... or one ulp next to it (2./std::sqrt(3) evaluated in doubles is one ulp above the nearest double to sqrt(4/3))
+            if sq > 0 and (math.sqrt(sq) == f or math.nextafter(math.sqrt(sq), math.inf) == f or math.nextafter(math.sqrt(sq), -math.inf) == f):
                 rn = math.isqrt(sq.numerator); rd = math.isqrt(sq.denominator)
                 if not (rn * rn == sq.numerator and rd * rd == sq.denominator):
                     import z3 as _z3
@@ -552,6 +553,9 @@ class Interp:
         if f is None: raise Unsupported('external function without model: ' + fname)
         s.funcs_run.add(fname); s.callstack.append(fname)
         try: return s._run(f, fname, args)
+        except Unsupported as e:
+            if not getattr(e, 'where', None): e.where = list(s.callstack)
+            raise
         finally: s.callstack.pop()
     def _run(s, f, fname, args):
         env = {}
